@@ -12,10 +12,10 @@ def parseB? (s : String) : Option Bool :=
 def parseOp? (tok : String) : Option Op :=
   match tok.splitOn ":" with
   | ["ins", k, a, b] => do pure (.insert (← k.toNat?) (← a.toInt?) (← b.toInt?))
-  | ["load", k] => do pure (.load (← k.toNat?))
-  | ["set", k, w, v] => do pure (.set (← k.toNat?) (← parseB? w) (← v.toInt?))
-  | ["m", l, pk, a, b, p, m] =>
-    do pure (.merge (← parseB? l) ⟨← pk.toNat?, ← parseOptInt' a, ← parseOptInt' b, ← parseB? p, ← parseB? m⟩)
+  | ["load", k, t] => do pure (.load (← k.toNat?) (← t.toNat?))
+  | ["set", k, t, w, v] => do pure (.set (← k.toNat?) (← t.toNat?) (← parseB? w) (← v.toInt?))
+  | ["m", l, pk, t, a, b, p, m] =>
+    do pure (.merge (← parseB? l) ⟨← pk.toNat?, ← t.toNat?, ← parseOptInt' a, ← parseOptInt' b, ← parseB? p, ← parseB? m⟩)
   | ["flush"] => some .flush
   | _ => none
 
@@ -27,23 +27,24 @@ def showOI : Option Int → String
   | none => "N"
 
 def showOut : Out × Nat → String
-  | (.merged nw a b d, q) =>
-    "M" ++ (if nw then "1" else "0") ++ ":" ++ showOI a ++ ":" ++ showOI b ++ ":" ++ (if d then "1" else "0") ++ ":" ++ toString q
+  | (.merged nw t a b d, q) =>
+    "M" ++ (if nw then "1" else "0") ++ ":" ++ toString t ++ ":" ++ showOI a ++ ":" ++ showOI b ++ ":" ++ (if d then "1" else "0") ++ ":" ++ toString q
   | (.error, _) => "E"
   | (.skip, _) => "."
 
 def showDb (n : Nat) (st : St) : String :=
   " ".intercalate ((List.range n).filterMap (fun k => (st.db k).map (fun r => toString k ++ "=" ++ toString r.1 ++ "/" ++ toString r.2)))
 
-/-- `run <n> <ops>` -/
+/-- `run <n> <final flush 0|1> <ops>` -/
 def handle : List String → String
-  | ["run", n, ops] =>
-    match n.toNat?, parseOps? ops with
-    | some n, some os =>
+  | ["run", n, ff, ops] =>
+    match n.toNat?, parseB? ff, parseOps? ops with
+    | some n, some ff, some os =>
       if os.all (opOk n) then
-        ";".intercalate ((outs n St.init os).map showOut) ++ " | " ++ showDb n (run n St.init (os ++ [.flush]))
+        ";".intercalate ((outs n St.init os).map showOut) ++ " | " ++
+          showDb n (run n St.init (if ff then os ++ [.flush] else os))
       else "bad-op"
-    | _, _ => "bad-op"
+    | _, _, _ => "bad-op"
   | _ => "bad-op"
 
 end SaVerif.Drv.Merge
